@@ -70,7 +70,7 @@ ALSO = {
     "C08": {"C01": ("C01.j",), "C09": ("C09.f",)},
     "C06": {"C05": ("C05.f",), "C01": ("C01.h",)},
     # the CLI prints file:line:col of the error it gets
-    "C30": {"C33": ("C33.b", "C33.a",), "C28": ("C28.i",)},
+    "C30": {"C33": ("C33.b", "C33.a",), "C28": ("C28.i",), "C26": ("C26.g",)},
     # error locations of list references come from the element positions (C08.e); line/col arithmetic (C06.d)
     "C28": {"C08": ("C08.e"), "C06": ("C06.c", "C06.d"), "C07": ("C07.e",), "C33": ("C33.d",), "C17": ("C17.m",)},
     # eolterm/sep modifiers not installed -> the memoized and the plain parser disagree on the repetition's extent
